@@ -234,6 +234,8 @@ def render(spec):
     if has_lib:
         em = Emitter()
         em.code('print "lib top"')
+        if spec.get("bigconst"):
+            em.code('hpad = "%s"' % ("a" * int(spec["bigconst"])))      # one instruction argument of several thousand bytes
         em.code("cap = 0")
         emit_units(em, range(split, n), "lib")
         files["lib.ms"] = em.program()
@@ -242,6 +244,8 @@ def render(spec):
     em.code('print "%s start"' % root_file)
     if has_lib:
         em.code("import lib")
+    if spec.get("bigconst"):
+        em.code('hpad = "%s"' % ("b" * int(spec["bigconst"])))
     em.code("cap = 0")
     if spec.get("hazard") == "map_shrink":
         # legal but unusual: a map callback shrinks the very list being mapped (prints nothing; must not disturb what follows)
@@ -350,6 +354,7 @@ def generate(rng, failure=None, depth=None):
     # where in the innermost body the failing operation sits (None: directly in the body, or in an `if` when a successful pre-run exists)
     # (the property speaks of call depth 0-6; recursion adds a few activations per link, far from the interpreter's stack limit)
     spec["hazard"] = rng.weighted([(None, 8), ("map_shrink", 1), ("filter_shrink", 1)] + [(h, 1) for h in sorted(LOOP_HAZARDS)])
+    spec["bigconst"] = rng.weighted([(0, 8), (5000, 1), (70000, 1)])
     spec["lead"] = rng.weighted([(0, 5), (1, 1), (2, 1), (7, 1)])
     spec["body_hazard"] = rng.weighted([(None, 6)] + [(h, 1) for h in sorted(LOOP_HAZARDS)])
     spec["rec_depth"] = rng.weighted([(2, 5), (1, 2), (4, 2), (7, 1)])
@@ -370,7 +375,7 @@ def shrink(spec):
             c = dict(spec)
             c[key] = False
             yield c
-    for key in ("wrap", "hazard", "body_hazard", "lead"):
+    for key in ("wrap", "hazard", "body_hazard", "lead", "bigconst"):
         if spec.get(key):
             c = dict(spec)
             c[key] = None
